@@ -1267,7 +1267,7 @@ Section FastSame.
   Local Notation peq := (peq fk).
   Local Notation pmul := (pmul fk).
   Local Notation pprod := (pprod fk).
-  Local Notation repr := (repr o fk ok den).
+  Local Notation repr := (repr fk ok den).
 
   Theorem multiply_spec a b : okl a -> okl b -> (poly_degree o a + poly_degree o b + 1 <= 2 ^ Z.of_nat lmax)%Z ->
     exists r, poly_multiply o ntt intt a b = Some r /\ okl r /\
@@ -1282,8 +1282,8 @@ Section FastSame.
               (zlen r <= Z.max 0 (poly_degree o a + poly_degree o b + 1))%Z /\ peq (D r) (pmul (D a) (D b)).
   Proof.
     intros Ha Hb Hsz. unfold poly_fast_multiply.
-    exact (fast_multiply_gen_spec o o o fk ok ok ok den den den H H H (fmul o) (Hmul_same o fk ok den H) ntt ntt intt lmax wr
-             ntt_is_dft ntt_is_dft intt_is_idft wr_half_root wr_nonzero two_nz a b Ha Hb Hsz).
+    apply fast_multiply_gen_spec with (lmax := lmax) (wr := wr) (ok1 := ok) (ok2 := ok) (den1 := den) (den2 := den);
+      try assumption; try exact H; exact (Hmul_same o fk ok den H).
   Qed.
 
   (* fast_square is fast_multiply of the operand with itself, up to the constant special case *)
@@ -1302,7 +1302,7 @@ Section FastSame.
         destruct (fo_mul _ _ _ _ H c c Hc Hc) as [M1 M2]. split; [constructor; [exact M1|constructor]|].
         assert (EL : peq (D l) [den c]).
         { apply peq_intro. intros [|i].
-          - rewrite (coeff_D den fk l 0). change (Z.to_nat 0) with O in C2. rewrite C2. reflexivity.
+          - rewrite (coeff_D fk den l 0). change (Z.to_nat 0) with O in C2. rewrite C2. reflexivity.
           - rewrite (coeff_above_pdeg fk (D l)); [rewrite coeff_cons_S, coeff_nil; reflexivity|].
             rewrite <- (degree_pdeg o fk ok den H l Hl). lia. }
         cbn [map]. rewrite EL, M2. apply peq_intro. intros [|i].
